@@ -9,7 +9,7 @@ def run(ck, replay=None):
         if replay.get("family") == "scanwalk":
             scanwalk.replay_one(ck, replay)
         return
-    fams = swprop.pick(["ScanWalk-F2b-contain.cfg"], ck.thorough())
+    fams = swprop.pick(["ScanWalk-F2b-contain.cfg", "ScanWalk-F9b-file.cfg"], ck.thorough())
     scanwalk.run_family(ck, fams, ["stream/plain", "fallback/nasty"])
     ck.cov["containment_rule"] = ("every tree (<= 4 nodes) x two extractors with arbitrary 'required' sets x every assignment of outcomes ok / error / error+packages / empty "
                                   "to the required <extractor,file> pairs: every other pair is extracted and reported exactly as if nothing failed, the failing extractor's status is "
